@@ -46,6 +46,8 @@ def _worker(args):
     }
     ctx = mod.make_context(pid, tier, widx, opts)
     t_end = time.time() + opts.get("budget_s", 1e9)
+    shrink_budget = opts.get("shrink_s", 40 if tier == "quick" else 240)
+    t_fail = [None]
 
     def run_one(case):
         r = mod.evaluate(case, ctx)
@@ -82,8 +84,12 @@ def _worker(args):
     def test(case):
         if st["fail"] is None and time.time() > t_end:
             return   # budget exhausted: remaining examples are no-ops (counted as skipped)
+        if t_fail[0] is not None and time.time() - t_fail[0] > shrink_budget:
+            return   # shrinking budget used up: keep the smallest failing case found so far
         mine = run_one(case)
         if mine:
+            if t_fail[0] is None:
+                t_fail[0] = time.time()
             st["fail"] = {"case": case, "sig": mine[0].sig, "msg": mine[0].msg,
                           "all": ["%s: %s" % (v.sig, v.msg) for v in mine[:5]]}
             raise _Fail(mine[0].msg)
